@@ -108,7 +108,8 @@ theorem c06_22_out_of_order_ignored (s : St) (now : Nat) (mid : MessageId) (dest
     the record is removed -/
 theorem c06_22_eom_exact_or_nothing (cfg : Cfg) (s : St) (now : Nat) (mid : MessageId) (dest : Nat) (f : List Nat) (r : Rcv)
     (hlen : 12 ≤ f.length) (hc : Tp22.cm_control f = Const.CM22.EOM_STATUS)
-    (hr : s.rcv.get? (Tp22.buffer_hash (Tp22.cm_session f) mid.source_address dest) = some r) :
+    (hr : s.rcv.get? (Tp22.buffer_hash (Tp22.cm_session f) mid.source_address dest) = some r)
+    (hsrc : mid.source_address ≠ Const.Addr.GLOBAL) :
     (deliveries (processCm cfg s now mid dest f).outs ≠ [] →
         r.data.length = r.messageSize ∧ r.messageSize = Tp22.cm_size f ∧ r.numSegments = Tp22.cm_segment f ∧
         deliveries (processCm cfg s now mid dest f).outs = [(mid.priority, r.pgn, mid.source_address, dest, r.data)]) ∧
@@ -118,8 +119,9 @@ theorem c06_22_eom_exact_or_nothing (cfg : Cfg) (s : St) (now : Nat) (mid : Mess
   have hl : ¬ f.length < 12 := by omega
   have c1 : (Const.CM22.EOM_STATUS == Const.CM22.RTS) = false := by decide
   have c2 : (Const.CM22.EOM_STATUS == Const.CM22.CTS) = false := by decide
+  have hsrc' : (mid.source_address == Const.Addr.GLOBAL) = false := by simpa using hsrc
   unfold processCm
-  simp only [hl, if_false, hc, c1, c2, Bool.false_eq_true, hr, beq_self_eq_true, if_true]
+  simp only [hl, if_false, hsrc', hc, c1, c2, Bool.false_eq_true, hr, beq_self_eq_true, if_true]
   by_cases hok : (r.messageSize == Tp22.cm_size f && r.numSegments == Tp22.cm_segment f && r.data.length == Tp22.cm_size f) = true
   · simp only [hok, if_true]
     simp only [Bool.and_eq_true, beq_iff_eq] at hok
